@@ -293,6 +293,28 @@ def run(ctx):
                     if not ok:
                         ctx.report('IntegerWrapper', 'timings', dict(v=v, w=w, table=tl, order=enc),
                                    dict(call='IntegerWrapper', v=v, w=w, clause='timings', table=tl, order=enc))
+    # ---- the parse-back clause through the real CodeWrapper (its own index -> bits expansion), pair tables of 2/4/16 symbols
+    from pyIRDecoder.code_wrapper import CodeWrapper
+    for tl, k in ((2, 1), (4, 2), (16, 4)):
+        bursts = [[500, -int(300 * 1.7 ** i)] for i in range(tl)]          # windows at 20% do not overlap
+        for enc in ('lsb', 'msb'):
+            for w in range(k, (12 if ctx.tier == 'quick' else 24) + 1, k):
+                for v in sorted({0, 1, 2, 2 ** w - 1, 2 ** (w - 1), ctx.rng.getrandbits(w), ctx.rng.getrandbits(w)}):
+                    if v >= 2 ** w:
+                        continue
+                    ctx.count_eval()
+                    try:
+                        flat = []
+                        for pair in IW(v, w, bursts, enc).timings:
+                            flat += list(pair)
+                        cw = CodeWrapper(enc, [], [], [], [b[:] for b in bursts], 20, flat)
+                        back = int(cw.get_value(0, w - 1))
+                        nb = cw.num_bits
+                    except Exception as e:  # noqa
+                        back, nb = type(e).__name__, None
+                    if back != v or nb != w:
+                        ctx.report('CodeWrapper', 'render / parse round trip', dict(v=v, w=w, table=tl, order=enc),
+                                   dict(call='CodeWrapper', v=v, w=w, table=tl, order=enc, parsed_back=back, bits=nb))
     ctx._distinct.update(range(ctx.cov['evaluations']))
     ctx.cov['rule'] = ('correspondence: operation descriptors run on every value of their range by the Coq model and by '
                        'IntegerWrapper (exhaustive widths 0..%d, values to 2^(w+2), all (width,start) slices, tables '
